@@ -27,7 +27,7 @@ ASSUMPTIONS = [
 ]
 
 HORIZON = 200.0
-LAST_ELEMENT = {"S1": ("b", 2), "S2": ("c", 2), "S5b": ("d", 2), "S3": ("c", 4)}
+LAST_ELEMENT = {"S1": ("b", 2), "S2": ("c", 2), "S5b": ("d", 2), "S3": ("c", 4), "SL": ("b", 1)}
 
 
 def last_element_done(sname, log, ft):
@@ -57,14 +57,16 @@ def shape(name, op_for):
         a = loadgen.make_task("a", "a", clients=1, iterations=3, completes_parent=True, op_params=op_for("a") or None)
         b = loadgen.make_task("b", "b", clients=1, time_period=100_000, warmup_time_period=0, op_params=op_for("b") or None)
         return [P([a, b]), T("c", 2, it=2, **op_for("c"))], (["localhost"], 2)
+    if name == "SL":
+        return [T("a", 1, it=5, **op_for("a")), T("b", 1, it=1, **op_for("b"))], (["localhost"], 1)
     if name == "S2":
         return [P([T("a", 1, it=2, **op_for("a")), T("b", 1, it=3, **op_for("b"))]), T("c", 2, it=1, **op_for("c"))], (["localhost", "h2"], 1)
     return [P([T("a", 1, it=2, **op_for("a")), T("b", 1, it=2, **op_for("b")), T("c", 1, it=1, **op_for("c"))], clients=2), T("d", 2, it=1, **op_for("d"))], (["localhost"], 1)
 
 
-LAST = {"S1": ("b", 0, 1), "S2": ("c", 1, 0), "S5b": ("d", 1, 0), "S3": ("c", 1, 1)}
-MID = {"S1": ("a", 1, 1), "S2": ("b", 0, 1), "S5b": ("c", 0, 0), "S3": ("b", 0, 1)}
-FIRST = {"S1": ("a", 0, 0), "S2": ("a", 0, 0), "S5b": ("a", 0, 0), "S3": ("b", 0, 0)}
+LAST = {"S1": ("b", 0, 1), "S2": ("c", 1, 0), "S5b": ("d", 1, 0), "S3": ("c", 1, 1), "SL": ("b", 0, 0)}
+MID = {"S1": ("a", 1, 1), "S2": ("b", 0, 1), "S5b": ("c", 0, 0), "S3": ("b", 0, 1), "SL": ("a", 0, 2)}
+FIRST = {"S1": ("a", 0, 0), "S2": ("a", 0, 0), "S5b": ("a", 0, 0), "S3": ("b", 0, 0), "SL": ("a", 0, 0)}
 
 
 def fault_specs(tier):
@@ -82,6 +84,14 @@ def fault_specs(tier):
         out.append((s, "prep-task-fails", 0))
         out.append((s, "worker-dies", 0))
         out.append((s, "cancel", 0))
+    # the driver's metrics store fails during the *periodic* post-processing (the load generators keep running), and the user cancels:
+    # race control tears the actor system down only after a while, so a BenchmarkComplete may still arrive after the notification
+    for n in (0, 2, 5):
+        out.append(("SL", "store-raises-late-teardown", n))
+    out.append(("SL", "store-raises", 0))
+    out.append(("SL", "store-raises", 4))
+    out.append(("SL", "cancel-late-teardown", 0))
+    out.append(("S1", "cancel-late-teardown", 0))
     return out
 
 
@@ -110,6 +120,8 @@ class RealRaceControl(racesim.RaceControl):
         self.first_terminal = None
         self.exit_sent = False
         self.fault_time = None
+        self.late_teardown = False
+        self.complete_after_terminal = False
 
     def on_message(self, now, msg):
         import thespian.actors as ta
@@ -126,12 +138,14 @@ class RealRaceControl(racesim.RaceControl):
         elif isinstance(msg, d.TaskFinished):
             self.co.on_task_finished(msg.metrics)
         elif isinstance(msg, d.BenchmarkComplete):
+            if self.first_terminal is not None:
+                self.complete_after_terminal = True
             self.co.on_benchmark_complete(msg.metrics)
             self.sim.tell(self.driver_addr, ta.ActorExitRequest())
             self.exit_sent = True
             if self.first_terminal is None:
                 self.first_terminal = ("complete", now)
-            self.phase = "complete"
+                self.phase = "complete"
         elif name == "BenchmarkFailure" or name == "PoisonMessage":
             self.co.error = True
             if self.first_terminal is None:
@@ -150,8 +164,9 @@ class RealRaceControl(racesim.RaceControl):
         self.co.cancelled = True
         self.first_terminal = self.first_terminal or ("cancelled", CLOCK.now)
         self.phase = "cancelled"
-        self.sim.tell(self.driver_addr, ta.ActorExitRequest())
-        self.exit_sent = True
+        if not self.late_teardown:
+            self.sim.tell(self.driver_addr, ta.ActorExitRequest())
+            self.exit_sent = True
 
 
 def shutil_rm(p):
@@ -176,6 +191,8 @@ class FailingProcessor:
 
 def check_race(spec, ch, res):
     sname, kind, where = spec
+    late = kind.endswith("-late-teardown")
+    kind = kind.replace("-late-teardown", "")
     s = racesim.setup()
     on_error = "abort" if kind in ("api-abort", "unsuccessful-abort") else "continue"
     target = {"first": FIRST, "mid": MID, "last": LAST}.get(where, FIRST)[sname] if isinstance(where, str) else None
@@ -197,7 +214,7 @@ def check_race(spec, ch, res):
     def behaviour(entry):
         import elastic_transport
 
-        out = {"service_time": 0.5, "body": {}}
+        out = {"service_time": 8.0 if sname == "SL" and "/verif/a/" in entry["target"] else 0.5, "body": {}}
         if target is not None and kind in ("api-abort", "connection-error"):
             _, _, tkey, ci, k, _w = entry["target"].split("/")
             if tkey == target[0] and int(ci) == target[1] and int(k) == target[2]:
@@ -234,6 +251,7 @@ def check_race(spec, ch, res):
 
     def rc_factory(sim, cfg, trk, daddr, mstore):
         rc = RealRaceControl(sim, cfg, trk, daddr, mstore)
+        rc.late_teardown = late
         rc_holder["rc"] = rc
         return rc
 
@@ -255,7 +273,7 @@ def check_race(spec, ch, res):
     hook = (lambda register: register(FailingProcessor())) if kind == "prep-task-fails" else None
     try:
         r = racesim.run_race(schedule, hosts, cores, behaviour, ch, horizon=HORIZON, on_error=on_error, faults=faults,
-                             rc_factory=rc_factory, track_plugin_hook=hook)
+                             rc_factory=rc_factory, track_plugin_hook=hook, linger=90.0 if late else 0.0)
     finally:
         m.InMemoryMetricsStore.put_value_cluster_level = orig_put
     rc = r.rc
@@ -292,7 +310,7 @@ def check_race(spec, ch, res):
             v = ("wrong-terminal-message", f"expected {want}, got {rc.first_terminal[0]}: {names}")
         elif rc.first_terminal[1] - ft > BOUND_AFTER_FAULT:
             v = ("failure-notification-late", f"fault at {ft}, notification at {rc.first_terminal[1]}")
-        elif "BenchmarkComplete" in names and kind != "cancel":
+        elif "BenchmarkComplete" in names and kind != "cancel" and not late:
             v = ("complete-after-failure", f"{names}")
         elif rc.summaries:
             v = ("results-printed", "summary report invoked although the race failed")
@@ -308,20 +326,22 @@ def check_race(spec, ch, res):
             v = ("shutdown-deadlock", f"{r.error}")
         if v is None and r.threads_left:
             v = ("threads-left-after-shutdown", f"{r.threads_left}")
+    if late and injected and rc.complete_after_terminal:
+        res.count("benchmark_complete_arrived_after_the_failure_or_cancel_notification")
     res.case(
-        case_repr={"shape": sname, "fault": kind, "where": where, "choices": list(ch.choices)[:60], "fault_time": ft,
+        case_repr={"shape": sname, "fault": kind + ("-late-teardown" if late else ""), "where": where, "choices": list(ch.choices)[:60], "fault_time": ft,
                    "race_control_saw": names, "notified_at": rc.first_terminal[1] if rc.first_terminal else None}
         if res.sample_now(499)
         else None,
         nontrivial_key=(spec, tuple(ch.choices)),
-        outcome_key=(sname, kind, rc.first_terminal[0] if rc.first_terminal else None, injected, v[0] if v else "ok", tuple(names)),
+        outcome_key=(sname, kind, late, rc.first_terminal[0] if rc.first_terminal else None, injected, v[0] if v else "ok", tuple(names)),
     )
     res.states += r.steps
     if v:
         res.violation(
-            f"failure:{v[0]}:{kind}",
-            f"{sname} fault={kind}@{where} deviations={ch.deviations} choices={[(i, c) for i, c in enumerate(ch.choices) if c]}: {v[1]}",
-            {"spec": [sname, kind, where], "choices": list(ch.choices)},
+            f"failure:{v[0]}:{kind}" + (":late-teardown" if late else ""),
+            f"{sname} fault={kind}{'-late-teardown' if late else ''}@{where} deviations={ch.deviations} choices={[(i, c) for i, c in enumerate(ch.choices) if c]}: {v[1]}",
+            {"spec": [sname, kind + ("-late-teardown" if late else ""), where], "choices": list(ch.choices)},
         )
 
 
